@@ -30,7 +30,8 @@ CLAIMED = {
         "technique": "Coq proof (mutual induction over the grammar, precedence-climbing invariant) re-checked against regenerated tables + exhaustive differential sweep",
     },
     "C06": {
-        "text": "Truth tables of or/and/not/all()/of() proved in Coq for operand lists of every length "
+        "text": "The and-group loop, the or-group loop and the Negate arm are REGENERATED from src/solver.rs on every run "
+                "(Model/GeneratedLoops.v) and proved equal to the model's folds (C06_table). Truth tables of or/and/not/all()/of() proved in Coq for operand lists of every length "
                 "(or_group_spec, and_group_spec, of_pos_spec, of_zero_spec, binary_eq_group, forms_agree_*), about the "
                 "model's folds that the solver is defined with; the finite space of the property (forms x arity 1..4 x "
                 "{t,f,m}^k x thresholds 0..k+1) is swept completely against the crate and against the extracted model.",
